@@ -53,6 +53,7 @@ def parseOp (ws : List String) : Option Op :=
   | ["tempo", v] => do some (.setTempo (← parseRat v))
   | ["etempo", v] => do some (.etempo (← parseRat v))
   | ["beats", v] => do some (.setBeats (← parseRat v))
+  | ["obeats", v] => do some (.setBeats (← parseRat v))     -- the same assignment from outside the clock's routines
   | ["bpb", v] => do some (.setBpb (← parseRat v))
   | ["q", "beats"] => some .qBeats
   | ["q", "tempo"] => some .qTempo
